@@ -91,10 +91,22 @@ pub fn content_pool(rng: &mut Rng, n: usize, big: bool) -> Vec<Vec<u8>> {
                 c
             }
             3 => vec![0u8; rng.range(1, 40) as usize],
-            4 if big => rng.bytes_range(1000, 100_000),
+            4 | 6 if big => rng.bytes_range(1000, 100_000),
+            7 if big => rng.bytes_range(4097, 9000),
             5 => vec![(i % 256) as u8; rng.range(100, 400) as usize],
             _ => rng.bytes_range(1, 60),
         };
+        // large contents get near-duplicate twins: same length, same prefix, one late byte differs
+        if c.len() >= 1000 {
+            let mut t = c.clone();
+            let l = t.len();
+            t[l - 1] ^= 0x55;
+            pool.push(t);
+            let mut t2 = c.clone();
+            let at = (l / 2 + rng.below((l / 2) as u64) as usize).min(l - 1);
+            t2[at] = t2[at].wrapping_add(1);
+            pool.push(t2);
+        }
         pool.push(c);
     }
     pool
